@@ -274,6 +274,10 @@ func MatchUnder(s *refavro.Schema, t *gen.T, v reflect.Value, omit bool, d any, 
 	}
 	for t.K == gen.KPtr {
 		if v.IsNil() {
+			// a nil pointer to a collection has no null to use: the empty collection
+			if s.Type == "array" || s.Type == "map" {
+				return matchEmptyColl(s.Type, d, path)
+			}
 			return path + ": nil pointer outside a union (outside the property's premise)"
 		}
 		t, v = t.Elem, v.Elem()
